@@ -294,4 +294,75 @@ example : Col.RelW 0 2 { first := 0, cells := [1, 0, 4], last := 4 } { first := 
 example : (shiftF { first := 9, cells := [1, 2, 3], last := 7 } : Col Rat).cells = [9, 1, 2] := by decide +kernel
 example : (shiftB { first := 9, cells := [1, 2, 3], last := 7 } : Col Rat).cells = [2, 3, 7] := by decide +kernel
 
+/-! ### stagnant layer (`-stagnant 1 exch_f th_m th_im`) -/
+
+/-- **stagnant_exchange_conserves** — the mobile/immobile exchange fractions that `transport()` stores in `Rxn_mix_map`
+move mass between the two cells without creating or losing any, for every exchange factor, time step (every value of
+the exponential), whenever the two water masses are in the ratio of the porosities. -/
+theorem stagnant_exchange_conserves (f thM thIm wm wim : Rat) (hM : thM ≠ 0) (hwm : wm ≠ 0) (hwi : wim ≠ 0)
+    (hr : wim * thM = wm * thIm) (m i : Rat) :
+    let w := stagWeights f thM thIm wm wim
+    (w.mSelf * m + w.mFromIm * i) + (w.imFromM * m + w.imSelf * i) = m + i := by
+  intro w
+  obtain ⟨h1, h2⟩ := stagWeights_conserving f thM thIm wm wim hM hwm hwi hr
+  have e1 : w.mSelf = 1 - w.imFromM := by show (stagWeights f thM thIm wm wim).mSelf = _; linarith
+  have e2 : w.imSelf = 1 - w.mFromIm := by show (stagWeights f thM thIm wm wim).imSelf = _; linarith
+  rw [e1, e2]; ring
+
+/-- if the water masses are *not* in the ratio of the porosities the exchange is not conservative (the reason why
+the generator sets the immobile water to `th_im/th_m` kg): th_m = 0.3, th_im = 0.1, both waters 1 kg, f = 1/2 -/
+example : let w := stagWeights (1/2 : Rat) (3/10) (1/10) 1 1
+    (w.mSelf * 1 + w.mFromIm * 0) + (w.imFromM * 1 + w.imSelf * 0) ≠ 1 + 0 := by decide +kernel
+
+/-- **closed_inventory_constant_stagnant** — diffusion only, no constant boundary, equal lengths, a stagnant layer whose
+exchange fractions are conserving (`stagWeights_conserving`): the inventory of mobile + immobile cells is the same
+after every shift, for any number of sub-mixes and shifts. -/
+theorem closed_inventory_constant_stagnant (s : Setup) (hf : s.flow = Flow.none) (h1 : s.bconFirst ≠ 1) (h2 : s.bconLast ≠ 1)
+    {L : Rat} (hL : ∀ c ∈ s.cells, c.len = L) {sw : List (Option (StagW Rat))} (hsw : ∀ w, some w ∈ sw → w.Conserving)
+    (shifts : Nat) {c : SCol Rat} (hn : c.mob.cells.length = s.n) :
+    ∀ c' ∈ transportStagRun s sw shifts c, c'.sum = c.sum := by
+  have step : ∀ c : SCol Rat, c.mob.cells.length = s.n →
+      (transportStagStepWith (initMix s).weights sw (initMix s).nmix (preMixes s (initMix s).nmix) s.flow c).sum = c.sum ∧
+      (transportStagStepWith (initMix s).weights sw (initMix s).nmix (preMixes s (initMix s).nmix) s.flow c).mob.cells.length = s.n := by
+    intro c hn
+    unfold transportStagStepWith
+    simp only [hf, shift, ne_eq, not_true_eq_false, and_false, if_false]
+    by_cases hk : (initMix s).nmix = 0
+    · have hp : preMixes s 0 = 0 := by simp [preMixes]
+      simp [hk, hp, iterS, hn]
+    · have hs := initMix_sym s hf h1 h2 hL hk
+      have hl : c.mob.cells.length = (initMix s).weights.length := by rw [weights_length s hk, hn]
+      obtain ⟨a1, b1⟩ := iterS_mixStagStep_sum hs hsw (preMixes s (initMix s).nmix) c hl
+      obtain ⟨a2, b2⟩ := iterS_mixStagStep_sum hs hsw ((initMix s).nmix - preMixes s (initMix s).nmix) _ (by rw [b1]; exact hl)
+      exact ⟨by rw [a2, a1], by rw [b2, b1, hn]⟩
+  unfold transportStagRun
+  simp only
+  induction shifts generalizing c with
+  | zero => intro c' h; simp [runWithS] at h
+  | succ k ih =>
+    intro c' h
+    obtain ⟨a, b⟩ := step c hn
+    simp only [runWithS, List.mem_cons] at h
+    rcases h with rfl | h
+    · exact a
+    · rw [ih b c' h, a]
+
+/-- **concentration_range_stagnant** — the range clause with a stagnant layer: non-negative exchange fractions
+(`stagWeights_nonneg`: `0 ≤ f ≤ 1`, positive porosities and water masses) keep every mobile and immobile concentration
+within the range of the initial mobile + immobile column and the boundary solutions. -/
+theorem concentration_range_stagnant (s : Setup) (hs : s.Valid) {sw : List (Option (StagW Rat))}
+    (hsw : ∀ w, some w ∈ sw → w.Nonneg) (shifts : Nat) {lo hi : Rat} {n w : SCol Rat} (h : SCol.RelW lo hi n w) :
+    List.Forall₂ (SCol.RelW lo hi) (transportStagRun s sw shifts n) (transportStagRun s sw shifts w) :=
+  runWithS_rel (fun _ _ hh => transportStagStepWith_rel (fun w hw => (weights_convex s hs w hw).1) hsw _ _ _ hh) shifts n w h
+
+-- non-vacuity: th_m = 0.2, th_im = 0.1, water 1 kg / 0.5 kg, f = 1/3: conserving, non-negative, and the pair really exchanges
+example : (stagWeights (1/3 : Rat) (1/5) (1/10) 1 (1/2)).Conserving := by
+  unfold StagW.Conserving; decide +kernel
+example : (stagWeights (1/3 : Rat) (1/5) (1/10) 1 (1/2)).Nonneg := by
+  unfold StagW.Nonneg; decide +kernel
+example : (transportStagRun exClosed [some (stagWeights (1/3 : Rat) (1/5) (1/10) 1 (1/2)), none, none, none] 2
+    { mob := { first := 5, cells := [1, 0, 0, 0], last := 7 }, imm := [3, 0, 0, 0] }).map SCol.sum = [4, 4] := by decide +kernel
+example : ((transportStagRun exClosed [some (stagWeights (1/3 : Rat) (1/5) (1/10) 1 (1/2)), none, none, none] 1
+    { mob := { first := 5, cells := [1, 0, 0, 0], last := 7 }, imm := [3, 0, 0, 0] }).map SCol.imm) ≠ [[3, 0, 0, 0]] := by decide +kernel
+
 end PhreeqcVerif.Transport
